@@ -34,3 +34,7 @@ chk("C05", "model_checking",
     "Same closure plus wire-fencing rows and caps: perfect matching of the idle block (independent bipartite matching), finite doubly-stochastic P, non-zero diagonal for idle paths after every step, bounded sort_trajstate, distinct never-reused path numbers, and the restart file written at that moment loads through the real setup_config / REPEX_state / load_paths.",
     "Trusted: as C03; restart loading uses the in-memory paths the restart file names (on-disk loading is C06/C08).",
     "explicit-state BFS on the implementation", "DESIGN.md 4/C05")
+chk("C07", "model_checking",
+    "Stateless exploration by replay of the real REPEX_state with real files and process restarts: workers 1..3, every completion order and every restart placement (at most two) exhaustively, outcomes and picks up to a deviation bound, seeds {0,1,7,+1}; every issued job's seed-sequence identity and initial generator state are compared pairwise, with the scheduler's stream, and with the restart-free stream of the same job ordinal. Engines: every engine class is run with equal/different job streams under different global RNG states.",
+    "Trusted: a lost job and its re-issue are one job; post-restart scheduler draws are answered as before the crash (restored generator state). Deviation-bounded (reported). Known findings: multi-worker restart stream collisions.",
+    "stateless deviation-bounded exploration on the implementation", "DESIGN.md 4/C07")
